@@ -149,6 +149,10 @@ class PolyAFinder:
         if pos >= read_mapped_region_end: # poly A starts after last mapped base
             shift = pos - read_mapped_region_end
             reference_polya_start = alignment.reference_end + shift
+            # clipped bases in front of the tail do not reach beyond the end of the reference sequence
+            header = getattr(alignment, "header", None)
+            if shift > 0 and header is not None and alignment.reference_id is not None and alignment.reference_id >= 0:
+                reference_polya_start = min(reference_polya_start, header.get_reference_length(alignment.reference_name))
         else:
             shift = pos - read_mapped_region_end
             ref_shift = move_ref_coord_alogn_alignment(alignment, shift)
